@@ -1,10 +1,12 @@
 import Ivy.Drv.Avl
 import Ivy.Drv.Heap
 import Ivy.Drv.Pump
+import Ivy.Drv.Loop
 
 def main (args : List String) : IO UInt32 := do
   match args with
   | ["avl"] => Ivy.Drv.Avl.run; return 0
   | ["heap"] => Ivy.Drv.Heap.run; return 0
   | ["pump"] => Ivy.Drv.Pump.run; return 0
+  | ["loop"] => Ivy.Drv.Loop.run; return 0
   | _ => IO.eprintln "usage: ivyreplay <component>"; return 2
